@@ -38,6 +38,11 @@ func runReplayDriver(e *Engine, verif, repo, prop string, o *Obligation, rec map
 		return false
 	}
 	d, ok := drivers[o.Fn]
+	for key := o.Fn; !ok && strings.Contains(key, "$"); {
+		// a closure without a driver of its own runs when its enclosing function does
+		key = key[:strings.LastIndex(key, "$")]
+		d, ok = drivers[key]
+	}
 	if !ok {
 		rec["replay"] = "no replay driver for function " + o.Fn
 		return false
